@@ -77,7 +77,7 @@ main(void)
 	uint32_t d0;
 	size_t u, i;
 #ifdef NATIVE_REPLAY
-	memset(c, 0, sizeof *c);
+	NATIVE_FILL(c, sizeof *c);
 #endif
 	T0F_DEPTH_AT(5);
 	d0 = t0n_dpi;
